@@ -22,6 +22,10 @@ def run(pid, tier, seed, own):
         traces += genprops.collect(rep, pool, tier, seed + 5, perturb=False, nseeds=1, maxn=4, rich=False, numinsts={3},
                                    counts={'n1': {5}, 'n2': {8, 10}, 'n3': {6}}, label='larger counts: n1 5, n2 8/10, n3 6, lists up to 4, 3 instances',
                                    only_twosided=two)
+        # lecturers with many projects and long first-side lists (a student ranking 4-6 projects of one lecturer)
+        traces += genprops.collect(rep, pool, tier, seed + 6, perturb=False, nseeds=2, maxn=6, rich=False, types={'spa'},
+                                   counts={'n1': {3}, 'n2': {4, 6}, 'n3': {1, 2}}, label='lecturers with 3-6 projects, lists up to 6',
+                                   only_twosided=two, every=2 if q else 1)
         if 'C08' in own:
             # many instances in one run: file names 0.txt .. 11.txt
             traces += genprops.collect(rep, pool, tier, seed + 4, perturb=False, nseeds=1, maxn=1, rich=False, numinsts={12},
